@@ -486,7 +486,7 @@ func (r *RuleCtx) SuccessOnlyFrom(granting CallPred) (msgs []string, nGrant int)
 					if rhs != nil {
 						what = exprStr(rhs)
 						// a copy of another local error variable: nil only if that one can be nil here
-						if src, ok := objOf(info, rhs).(*types.Var); ok && !src.IsField() && src != w && depth < 3 && src.Pos() > r.FI.Decl.Body.Pos() {
+						if src, ok := objOf(info, rhs).(*types.Var); ok && !src.IsField() && src != w && depth < 3 && !isParamOrResult(r.FI, src) {
 							sub := nilOrigins(src, func(q Pt) bool { return q == dp }, depth+1)
 							if sub == "" {
 								continue
@@ -503,7 +503,7 @@ func (r *RuleCtx) SuccessOnlyFrom(granting CallPred) (msgs []string, nGrant int)
 				msg = "`return " + v.Name() + "` (" + line + "): " + m
 			}
 			// parameters and results are not definitions we can see
-			if v.Pos() < r.FI.Decl.Body.Pos() {
+			if isParamOrResult(r.FI, v) {
 				msg = "undecided: `return " + v.Name() + "` returns a parameter/named result"
 			}
 			msgs = append(msgs, msg)
@@ -641,7 +641,7 @@ func (l *ElemLoop) IsElem(e ast.Expr) bool {
 	if l.Val != nil && o == l.Val {
 		return true
 	}
-	if posIn(l.Body, o.Pos()) {
+	if localIn(l.Body, o) {
 		if def, n := localDef(l.info, l.Body, o); n == 1 && def != nil {
 			if ix, ok := ast.Unparen(def).(*ast.IndexExpr); ok {
 				return l.Idx != nil && objOf(l.info, ix.Index) == l.Idx && sameListExpr(l.info, ix.X, l.List)
@@ -964,6 +964,26 @@ func (f *Flow) LoopHeadIs(l *ElemLoop, p Pt) bool {
 			return n == ast.Node(s.Init)
 		}
 		return s.Cond != nil && n == ast.Node(s.Cond)
+	}
+	return false
+}
+
+// isParamOrResult: v is a parameter, the receiver or a named result of fi (inlined helper bodies bring locals whose
+// declarations lie outside fi's own source range, so positions cannot decide this).
+func isParamOrResult(fi *FuncInfo, v *types.Var) bool {
+	sig := fi.Obj.Type().(*types.Signature)
+	if sig.Recv() == v {
+		return true
+	}
+	for i := 0; i < sig.Params().Len(); i++ {
+		if sig.Params().At(i) == v {
+			return true
+		}
+	}
+	for i := 0; i < sig.Results().Len(); i++ {
+		if sig.Results().At(i) == v {
+			return true
+		}
 	}
 	return false
 }
